@@ -246,6 +246,31 @@ class Index:
         # F1 dooms the await: once a needed event is in the hands of a party that cannot finish it, the polling loop runs out of
         # its 1000 rounds; a lineage descendant of that event which is still sitting in a queue, untouched, at that moment is an
         # incidental part of the same incompleteness
+        # F5 (timeout programs): an event whose processing was abandoned by a cancellation never signals, nor do its ancestors; the
+        # exact signature (which pending results and which ancestors F5 does NOT explain) is the one used for C10
+        ab_events = {p['b']['ev'] for p in abandoned_procs(self) if p.get('cancel_seq', 0) < at_seq}  # (abandoned before this await ended)
+        if ab_events and not (isinstance(me, str) and me[:1] in ('S', 'G')):
+            # (only timeouts whose path had run by the time of this witness can have covered anything)
+            fired = [f_ for f_ in _fired_invocations(self) if self.exit.get(f_) is not None and self.exit[f_]['seq'] < at_seq]
+            rest = []
+            for it in why:
+                ev = it[1]
+                touched = ev in ab_events or bool(self.desc(ev) & ab_events)
+                if not touched:
+                    rest.append(it)
+                    continue
+                if it[0] == 'nosig':
+                    if any(x[1] == ev and x[0] == 'result' for x in why):
+                        continue  # judged through its result items
+                    mechs.add(_c10_mech(self, ev, fired))
+                elif it[3] == 'pending':
+                    mechs.add(_c10_mech(self, ev, fired, 'pending'))
+                else:
+                    mechs.add(_c10_mech(self, ev, fired))
+            why = rest
+            items_by_ev = collections.defaultdict(list)
+            for it in why:
+                items_by_ev[it[1]].append(it)
         f1_held = {it[1] for it in why if it[0] == 'result' and self.held_by_other(it[1], at_seq, me)}
         dequeued = {d['ev'] for d in self.deqs if d['seq'] < at_seq}
         for it in why:
@@ -443,7 +468,12 @@ def c03(ix: Index) -> None:
                 continue  # stop() abandons a bus's backlog by design: whoever awaits one of those events waits forever
             if ix.sane or ix.meta.get('hang') in ('deadlock',):
                 tree = {a['ev']} | ix.desc(a['ev'])
-                mech = _hang_mech(ix, tree)
+                if abandoned_procs(ix) and not ix.has_spawn:
+                    # timeout programs: the exact F5 signature (an event whose handler timed out, with everything abandoned below it
+                    # covered by that very timeout, DOES complete on the current tree: its non-completion is not F5)
+                    mech = _c10_mech(ix, a['ev'], _fired_invocations(ix))
+                else:
+                    mech = _hang_mech(ix, tree)
                 ix.v('C03', 'await-never-returns', mech, ev=a['ev'], by=a['by'])
             continue
         if e['exc'] is not None:
@@ -782,17 +812,33 @@ def c09(ix: Index) -> None:
             want_parent = '*'  # rejected everywhere: parent id of an event that never entered a bus is not observable state
         else:
             want_parent = None
-        if want_parent != '*' and f['parent'] != want_parent:
+        alt_parent = want_parent
+        if want_parent is None and not xp:
+            # created and first dispatched by top-level code (no parent), LATER passed on to another bus from inside a handler: the
+            # statement covers both readings ("dispatched from ordinary code: no parent" / "dispatched inside a handler: that
+            # handler's event"); the library fills the still empty parent id at that second dispatch
+            later = next((r['by'] for r in ix.R if r['k'] == 'disp_ok' and r['ev'] == ev and isinstance(r['by'], int) and r['by'] in ix.inv and ix.inv[r['by']]['ev'] != ev), None)
+            if later is not None:
+                alt_parent = ix.inv[later]['ev']
+        if want_parent != '*' and f['parent'] != want_parent and f['parent'] != alt_parent:
             ix.v('C09', 'parent-id', None, ev=ev, got=f['parent'], want=want_parent, by=by)
         got = child_lists.get(ev, [])
-        if isinstance(by, int) and ev in accepted_evs:
-            i = ix.inv[by]
-            want = [(i['ev'], f"B{i['bus']}.h{i['h']}")]
+        # every handler invocation that dispatched this event object (the first one, and any handler that passed the existing
+        # object on to another bus later) lists it among the children of ITS result; an event handed on by a handler of its own
+        # (re-dispatch / relay of the event being handled) is not its own child
+        disp_invs = [r['by'] for r in ix.R if r['k'] == 'disp_ok' and r['ev'] == ev and isinstance(r['by'], int) and r['by'] in ix.inv and ix.inv[r['by']]['ev'] != ev]
+        per_inv = collections.Counter(disp_invs)
+        if ev in accepted_evs:
+            want = [(ix.inv[b]['ev'], f"B{ix.inv[b]['bus']}.h{ix.inv[b]['h']}") for b in per_inv]
         else:
             want = []
-        n_disp = sum(1 for r in ix.R if r['k'] == 'disp_ok' and r['ev'] == ev and r['by'] == by) if isinstance(by, int) else 0
-        if want and n_disp > 1 and got and set(got) == set(want) and len(got) <= n_disp:
-            continue  # the same child object dispatched k times (to several buses) by one invocation is listed up to k times
+        if want and set(got) == set(want):
+            # the same child object dispatched k times (to several buses) by one invocation is listed up to k times there
+            cap = collections.Counter()
+            for b, n in per_inv.items():
+                cap[(ix.inv[b]['ev'], f"B{ix.inv[b]['bus']}.h{ix.inv[b]['h']}")] += n
+            if all(1 <= n <= cap[k] for k, n in collections.Counter(got).items()):
+                continue
         if sorted(got) != sorted(want):
             clause = 'rejected-dispatch-recorded-as-child' if ev not in accepted_evs and got else 'children-attribution'
             ix.v('C09', clause, None, ev=ev, got=got, want=want)
@@ -1252,6 +1298,25 @@ def c10(ix: Index) -> None:
         for a in ix.awaits:
             if isinstance(a['by'], str) and a['by'].startswith('A') and a['e'] is None:
                 ix.v('C10', 'awaiter-never-released', _c10_mech(ix, a['ev'], fired), ev=a['ev'])
+
+
+def _fired_invocations(ix: Index) -> list:
+    """Handler invocations that ran into their event's timeout, plus those that raised TimeoutError themselves (same library path)."""
+    cached = getattr(ix, '_fired', None)
+    if cached is not None:
+        return cached
+    out = []
+    for inv, i in ix.inv.items():
+        to = ix.mk.get(i['ev'], {}).get('timeout')
+        if to is None or ix.sc['handlers'][i['h']].get('kind', 'async').startswith('s'):
+            continue
+        x = ix.exit.get(inv)
+        if x is not None and x['vt'] < i['vt'] + to - EPS:
+            continue
+        out.append(inv)
+    out += [inv for inv, x in ix.exit.items() if x['out'] == 'raise' and x['et'] == 'TimeoutError' and inv not in out]
+    ix._fired = out
+    return out
 
 
 def _c10_effective(ix: Index, fired: list) -> set:
